@@ -2,6 +2,7 @@ package enga
 
 import (
 	"fmt"
+	"github.com/gkampitakis/go-snaps/match"
 	"os"
 	"path/filepath"
 	"reflect"
@@ -283,7 +284,7 @@ func keysOfBool(m map[string]bool) []string {
 }
 
 func checkC12(c *vkit.Ctx) {
-	c.P.Rule = "case = (option set, sequence of 1..4 entry points) - ALL 780 sequences over the five Match* entry points x 108 option sets (Filename x Ext x Update x JSON x nested Dir); each sequence is executed twice in fresh directories: through one shared Config and through a freshly built identical Config per call; oracle: reflection fingerprint of the Config (and of an unrelated Config and of WithConfig()) before/after every call, and equality of created relative paths, file bytes and outcomes between the two executions; plus sampled sequences in which the calls of one test come from two different _test.go files (default file name = the calling file's, per call) and sampled sequences through a Config and a by-value copy of it with another Filename (taken before, between or after calls through the original); non-trivial = sequence of length >= 2 (an earlier call can influence a later one); distinct by (option set, sequence); thorough adds concurrent mixes through one Config under the race detector"
+	c.P.Rule = "case = (option set, sequence of 1..4 entry points) - ALL 780 sequences over the five Match* entry points x 108 option sets (Filename x Ext x Update x JSON x nested Dir); each sequence is executed twice in fresh directories: through one shared Config and through a freshly built identical Config per call; oracle: reflection fingerprint of the Config (and of an unrelated Config and of WithConfig()) before/after every call, and equality of created relative paths, file bytes and outcomes between the two executions; plus sampled sequences in which the calls of one test come from two different _test.go files (default file name = the calling file's, per call) sampled re-entrant calls (a Custom callback of a call through one Config snapshots through another Config with other JSON options), and sampled sequences through a Config and a by-value copy of it with another Filename (taken before, between or after calls through the original); non-trivial = sequence of length >= 2 (an earlier call can influence a later one); distinct by (option set, sequence); thorough adds concurrent mixes through one Config under the race detector"
 	sets := allOptSets()
 	var seqs [][]string
 	var rec func(pre []string, n int)
@@ -440,6 +441,73 @@ func checkC12(c *vkit.Ctx) {
 			})
 			c.Count("derived_by_value_config_sequences", 1)
 			c.Case(vkit.Hash("derived", o.Name, seq, via, copyAt), true)
+		}
+	}
+	// re-entrant use: a Custom callback of a call through Config A takes a snapshot through
+	// Config B (other JSON options); A's text must still be laid out by A's options
+	if os.Getenv("VERIF_RACE_BUILD") != "1" {
+		layouts := []snaps.JSONConfig{{Indent: " ", SortKeys: true}, {Indent: "\t", SortKeys: false, Width: 20}, {Indent: "    ", SortKeys: true, Width: 80}, {Indent: "", SortKeys: false, Width: 200}, {Indent: "  ", SortKeys: false}}
+		n := c.N(1500, 30000)
+		for j := 0; j < n; j++ {
+			i := total + 3000000 + j
+			if !c.Mine(i) {
+				continue
+			}
+			r := c.Rand("nested", j)
+			la, lb := layouts[r.IntN(len(layouts))], layouts[r.IntN(len(layouts))]
+			apiA, apiB := pick2(r, "json", "sjson"), pick2(r, "json", "sjson")
+			in := map[string]any{"outer_options": la, "inner_options": lb, "outer_api": apiA, "inner_api": apiB}
+			c.Guard(in, func() {
+				root := vkit.MkScratch("c12n")
+				defer os.RemoveAll(root)
+				snaps.VerifResetProcessState()
+				snaps.VerifSetMode(false, "")
+				snaps.VerifSetNoColor(true)
+				cfgA := snaps.WithConfig(snaps.Dir(root), snaps.Filename("outer"), snaps.JSON(la))
+				cfgB := snaps.WithConfig(snaps.Dir(root), snaps.Filename("inner"), snaps.JSON(lb))
+				if r.IntN(3) == 0 {
+					cfgB = snaps.WithConfig(snaps.Dir(root), snaps.Filename("inner")) // defaults
+					lb = snaps.JSONConfig{Indent: " ", SortKeys: true}
+				}
+				docA := `{"zeta":{"b":[1,2,3,4,5,6,7,8,9,10,11,12],"a":"x"},"pos":1,"alpha":[{"k":2,"j":1}]}`
+				docB := `{"y":[10,20,30,40,50,60,70,80,90,100,110,120],"x":{"n":2,"m":1}}`
+				t := vkit.NewT("TestNested")
+				inner := func(v any) (any, error) {
+					if apiB == "sjson" {
+						cfgB.MatchStandaloneJSON(t, docB)
+					} else {
+						cfgB.MatchJSON(t, docB)
+					}
+					return v, nil
+				}
+				if apiA == "sjson" {
+					cfgA.MatchStandaloneJSON(t, docA, match.Custom("pos", inner))
+				} else {
+					cfgA.MatchJSON(t, docA, match.Custom("pos", inner))
+				}
+				t.Take()
+				t.Finish()
+				got := tree(root)
+				want := func(doc string, l snaps.JSONConfig) string {
+					return strings.TrimSuffix(string(tpretty.PrettyOptions([]byte(doc), &tpretty.Options{Width: l.Width, Indent: l.Indent, SortKeys: l.SortKeys})), "\n")
+				}
+				for _, x := range []struct {
+					who, text string
+				}{{"outer", want(docA, la)}, {"inner", want(docB, lb)}} {
+					found := false
+					for name, content := range got {
+						if strings.HasPrefix(filepath.Base(name), x.who) && (content == x.text || strings.Contains(content, "\n"+x.text+"\n---\n")) {
+							found = true
+						}
+					}
+					if !found {
+						c.Violate("format-not-a-function-of-options", "", fmt.Sprintf("a Custom callback of the %s call through a Config with JSON options %+v took a %s snapshot through a Config with %+v: the %s text is not laid out by its own Config's options; files %v", apiA, la, apiB, lb, x.who, got), in)
+						return
+					}
+				}
+			})
+			c.Count("nested_calls_from_a_custom_callback", 1)
+			c.Case(vkit.Hash("nested", fmt.Sprint(la), fmt.Sprint(lb), apiA, apiB), true)
 		}
 	}
 	if c.P.Exhaustive == nil {
